@@ -49,9 +49,15 @@ func cmdC09(seed uint64, tier, outdir string) {
 				// lists, with and without phases (the tracer itself is safe for concurrent use)
 				switch ngo {
 				case 2:
-					// prefix patterns over the document keys (category/name/variant), no phase: nothing is printed
-					shared.SetTraceConfiguration(&classifier.TraceConfiguration{TraceLicenses: "License/A*,License/M*,Header/*,L*", TracePhases: ""})
+					// prefix patterns over the document keys (category/name/variant) or the bare wildcard, no phase: nothing is printed
+					shared.SetTraceConfiguration(&classifier.TraceConfiguration{TraceLicenses: []string{"License/A*,License/M*,Header/*,L*", "*"}[seed%2], TracePhases: ""})
 				case 16:
+					if true {
+						// the documented default: no Tracer (lines go to standard output), tracing enabled for one
+						// license and phases that every input reaches
+						shared.SetTraceConfiguration(&classifier.TraceConfiguration{TraceLicenses: "License/MIT*", TracePhases: "tokenize,score"})
+						break
+					}
 					shared.SetTraceConfiguration(&classifier.TraceConfiguration{TraceLicenses: "*", TracePhases: ""})
 				case 64:
 					var mu sync.Mutex
@@ -62,10 +68,12 @@ func cmdC09(seed uint64, tier, outdir string) {
 			}
 			got := make([][]string, ngo)
 			var wg sync.WaitGroup
+			start := make(chan struct{}) // all goroutines make their first call at the same moment
 			for g := 0; g < ngo; g++ {
 				wg.Add(1)
 				go func(g int) {
 					defer wg.Done()
+					<-start
 					got[g] = make([]string, len(ins))
 					for k := range ins {
 						i := (k + g*7) % len(ins)
@@ -82,6 +90,7 @@ func cmdC09(seed uint64, tier, outdir string) {
 					}
 				}(g)
 			}
+			close(start)
 			wg.Wait()
 			for g := 0; g < ngo; g++ {
 				for i := range ins {
